@@ -15,7 +15,7 @@ ASM_MGR_ASSUMPTION = (
 def base_jobs(tier, roles, compress_quick=(), compress_thorough=()):
     """jobs of the synchronous C family (*_ctx_base.c): contracts of init/update/final/submit (vf/ctxbase.py) and,
     for C01, the compression functions against the standards (vf/compress.py).
-    quick: all five files except X_update of the four non-sha256 files (thorough); compression functions: see callers."""
+    quick: all five files except X_update of the four non-sha256 files and sha512's X_final (thorough); compression functions: see callers."""
     from . import compress, ctxbase
 
     def make(scratch):
@@ -23,7 +23,8 @@ def base_jobs(tier, roles, compress_quick=(), compress_thorough=()):
         # quick: every role for the sha256 file; for the other four files everything except X_update (the most expensive
         # job, same shape) - so that X_final (padding, length field) and the submit protocol are proved for all five
         js = [j for j in ctxbase.jobs(os.path.join(scratch, "ctxbase"), None) if j.meta["role"] in roles
-              and (full or j.meta["role"] != "update" or "/sha256/" in j.name)]
+              and (full or j.meta["role"] != "update" or "/sha256/" in j.name)
+              and (full or j.name != "ctxbase/sha512/final")]  # 128-byte blocks: about 1000 s, thorough tier
         keys = list(compress_thorough if full else compress_quick)
         if keys:
             js += compress.jobs(os.path.join(scratch, "compress"), keys)
@@ -32,7 +33,7 @@ def base_jobs(tier, roles, compress_quick=(), compress_thorough=()):
 
 
 BASE_NOTE = ("base family (*_mb/*_ctx_base.c, the binding chosen when no SIMD level is usable): synchronous, no lane manager; "
-             "contracts in contracts/ctxbase_prelude.h; quick tier proves all five files except X_update of sha1/sha512/md5/sm3 (thorough)")
+             "contracts in contracts/ctxbase_prelude.h; quick tier proves all five files except X_update of sha1/sha512/md5/sm3 and X_final of sha512 (thorough)")
 
 
 def run_ctx(rep, tier, wanted, only=None, leaf_all=True, extra=None):
